@@ -25,6 +25,7 @@ var c07Templates = []struct{ name, src string }{
 	{"loop-under-try-frames", sim.Prelude + "var f\nf = func(n) {\n\ttry {\n\t\tif n > 0 { return f(n - 1) + 1 }\n\t\tx := 0\n\t\tfor { x++ }\n\t} catch e {\n\t\tlog(\"caught\", n)\n\t\treturn -1\n\t} finally {\n\t\tlog(\"fin\", n)\n\t}\n}\ntry {\n\treturn f(6)\n} catch e2 {\n\treturn -2\n}\n"},
 	{"host-panic-under-try-frames", sim.Prelude + "var f\nf = func(n) {\n\ttry {\n\t\tif n > 0 { return f(n - 1) + 1 }\n\t\treturn op(0)\n\t} finally {\n\t\tn = 0\n\t}\n}\ntry {\n\treturn [1, 2, 3, f(5)]\n} finally {\n\tlog(\"main-finally\")\n}\n"},
 	{"value-stack-overflow-in-try", sim.Prelude + "var f\nf = func(n, x, y, z) { return 1 + f(n + 1, x, y, z) }\ntry {\n\tlog(\"start\")\n\treturn f(0, 1, 2, 3)\n} catch e {\n\treturn \"caught\"\n}\n"},
+	{"nil-globals-writer", "global (gx, gy)\ngx = 11\ngy = [1, 2]\nthrow \"after writing globals\"\n"},
 	{"modules-then-error", sim.Prelude + "a := import(\"modA\")\nb := import(\"modB\")\nh := import(\"host\")\nh.arr[0] = 77\na.inc()\nb.twice()\nlog(a.get(), h.arr)\nreturn b.boom(\"late\")\n"},
 }
 
@@ -41,7 +42,7 @@ func c07Run(rc *sim.RunCtx) {
 	allFaults := []sim.FaultKind{sim.FGoErr, sim.FUgoErr, sim.FPanicStr, sim.FPanicErr, sim.FPanicRT, sim.FPanicObj}
 
 	// observation script
-	og := newGen(t, genConfig{Modules: true, Hosts: true, Consts: t.Bool(1, 2), MaxStmts: 10})
+	og := newGen(t, genConfig{Modules: true, Hosts: true, Consts: t.Bool(1, 2), Params: true, MaxStmts: 10})
 	obsSrc, obsMods := og.program()
 	if t.Bool(1, 2) {
 		// end the observation with an error thrown at a drawn call depth and never caught: a handler or frame left
@@ -205,7 +206,11 @@ func c07Run(rc *sim.RunCtx) {
 					perr = fmt.Errorf("panic: escaped from Run with recovery off: %v", r)
 				}
 			}()
-			_, perr = vm.Run(w.Globals, ugo.Int(i))
+			if p.kind == "nil-globals-writer" {
+				_, perr = vm.Run(nil)
+			} else {
+				_, perr = vm.Run(w.Globals, ugo.Int(i))
+			}
 		}()
 		restore()
 		rc.Steps += sc.Steps
@@ -303,6 +308,19 @@ func c07Run(rc *sim.RunCtx) {
 	if fp := sim.Fingerprint(obsBC); fp != obsFP {
 		rc.Decoded = decoded()
 		rc.Fail("bytecode-modified", "bytecode-modified:observation", "executing the observation script modified its Bytecode")
+		return
+	}
+	// a script run without globals gets an empty global scope of its own, whatever ran before
+	readerBC := mustCompile("global (gx, gy)\nreturn [gx, gy]\n", mm, false)
+	if t.Bool(1, 2) {
+		vm.Clear()
+	}
+	vm.SetBytecode(readerBC)
+	r1, e1 := vm.Run(nil)
+	r2, e2 := ugo.NewVM(readerBC).Run(nil)
+	if a, b := sim.MakeOutcome(r1, e1, nil), sim.MakeOutcome(r2, e2, nil); !a.Equal(b) {
+		rc.Decoded = decoded()
+		rc.Fail("history-dependent-outcome", "used-vm-differs:nil-globals", "a script run with nil globals sees state of earlier runs: used VM %s, new VM %s (prior runs %v)", a, b, kinds)
 	}
 }
 
